@@ -352,7 +352,14 @@ theorem fixedFrom_ne_panic (c : Cfg) (v : Val) : fixedFrom c v ≠ .panic := by
   cases v with
   | num r => simp [fixedFrom]
   | bool b => simp [fixedFrom]
-  | str s => unfold fixedFrom; cases h : FixedText.fromStr64 c.places c.mult s <;> simp [h] <;> split <;> simp
+  | str s =>
+    unfold fixedFrom
+    cases h : FixedText.fromStr64 c.places c.mult s <;> simp only [h] <;> try simp
+    split
+    · unfold fromExp
+      cases SoftFloat.parse SoftFloat.f64 (FixedText.stripCommas s) <;> simp
+      split <;> simp
+    · simp
 
 theorem ite_ne_panic {α : Type} (p : Prop) [Decidable p] (a b : VR α) (ha : a ≠ .panic) (hb : b ≠ .panic) :
     (if p then a else b) ≠ .panic := by
